@@ -158,7 +158,7 @@ def apply(doc, case_seed, i, gen, kinds=None):
     gen.doc = doc
     kind = r.choice(['lib', 'lib', 'scene_nodes', 'node_children', 'node_children', 'transforms', 'transforms', 'matbind',
                      'matinputs', 'prims', 'sources', 'params', 'attr', 'attr', 'attr', 'rename', 'rename', 'default_scene',
-                     'contributors', 'save'] if kinds is None else kinds)
+                     'contributors', 'save', 'srcdata'] if kinds is None else kinds)
     ref = referenced(doc)
     nodes = all_nodes(doc)
     if kind == 'save':
@@ -283,6 +283,22 @@ def apply(doc, case_seed, i, gen, kinds=None):
                 extra = numpy.array([gen.f32() for _ in range(len(s.components) * r.randint(0, 2))], dtype=numpy.float32)
                 s.data = numpy.concatenate([flat, extra])
         return 'sources:' + k
+    if kind == 'srcdata':
+        # values of a source changed in place, in the array the source already holds (its shape and dtype stay)
+        c = [s for g in doc.geometries for s in g.sourceById.values() if isinstance(s, source.FloatSource) and s.data.size]
+        if not c:
+            return None
+        s = r.choice(c)
+        k = r.choice(['item', 'row', 'scale', 'slice'])
+        if k == 'item':
+            s.data[r.randrange(len(s.data))][r.randrange(s.data.shape[1])] = gen.f32()
+        elif k == 'row':
+            s.data[r.randrange(len(s.data))] = [gen.f32() for _ in range(s.data.shape[1])]
+        elif k == 'scale':
+            s.data *= r.choice([2, 0.5, -1])
+        else:
+            s.data[::2] += 1
+        return 'srcdata:' + k
     if kind == 'params':
         if not doc.effects:
             return None
@@ -349,7 +365,7 @@ def apply(doc, case_seed, i, gen, kinds=None):
             o.name = 'N' + new
         return 'rename:' + name
     if kind == 'attr':
-        k = r.choice(['light', 'camera', 'effect', 'material', 'matnode', 'geomname', 'asset', 'image', 'nodename', 'geomds', 'geomds', 'transform', 'transform'])
+        k = r.choice(['light', 'camera', 'effect', 'material', 'matnode', 'geomname', 'asset', 'image', 'nodename', 'geomds', 'geomds', 'transform', 'transform', 'shading'])
         if k == 'light' and doc.lights:
             l = r.choice(list(doc.lights))
             l.color = gen.color(3)
@@ -386,6 +402,15 @@ def apply(doc, case_seed, i, gen, kinds=None):
                 e.opaque_mode = material.OPAQUE_MODE.A_ONE
             else:
                 e.opaque_mode = r.choice([material.OPAQUE_MODE.A_ONE, material.OPAQUE_MODE.RGB_ZERO])
+        elif k == 'shading' and doc.effects:
+            e = r.choice(list(doc.effects))
+            e.shadingtype = r.choice([t for t in material.Effect.shaders if t != e.shadingtype])
+            if gen.o.get('schema'):
+                # a schema-respecting edit: the new shader keeps only the parameters it has
+                from vlib import modelgen as _mg
+                for prop in material.Effect.supported:
+                    if prop not in _mg.SHADER_PARAMS[e.shadingtype]:
+                        setattr(e, prop, None)
         elif k == 'material' and doc.materials:
             m = r.choice(list(doc.materials))
             m.name = r.choice(['newname', 'nn2'])
